@@ -124,6 +124,15 @@ Theorem C13_session_no_leak : forall ops t ls, bracketed ops = true -> 1 <= t ->
   let st := trun ops t ls in forall w, In w (holders (lim st)) -> In w (map fst (reqs st)).
 Proof. intros ops t ls Hb Ht Hl st. apply holders_live. now apply trun_inv. Qed.
 
+(* the unanswered-request count: every request that has arrived is, exactly once, either not yet started,
+   suspended somewhere in its coroutine, or ended - so the number of requests received whose handling has
+   not finished is arrived - ended (the snapshots compare it with unanswered_request_count()) *)
+Theorem C13_session_unanswered : forall ops t ls, bracketed ops = true -> 1 <= t -> Forall tok_label ls ->
+  let st := trun ops t ls in
+  Permutation.Permutation (arrived st) (ready st ++ map fst (reqs st) ++ ended st) /\
+  (unfinished st + length (ended st) = length (arrived st))%nat.
+Proof. exact trun_unanswered. Qed.
+
 (* requests ask the limiter for their permit in the order in which they arrived (and the limiter hands
    permits to its queue first come, first served: C13_fifo, C13_exit_serves_head) *)
 Theorem C13_session_arrival_order : forall t ls,
@@ -162,4 +171,5 @@ Print Assumptions C13_session_bound.
 Print Assumptions C13_request_handlers_bounded.
 Print Assumptions C13_message_handlers_bounded.
 Print Assumptions C13_session_no_leak.
+Print Assumptions C13_session_unanswered.
 Print Assumptions C13_session_arrival_order.
